@@ -82,6 +82,7 @@ func runC05(c *Ctx) {
 		return
 	}
 	c05Halving(c, "C05-D5")
+	c04Shift(c, "C05-D5") // the collapsing stores reuse the dense window-moving primitives on every non-collapsing and shifting path
 	c05EmptyEdge(c)
 	for _, ct := range cts {
 		c05Shadow(c, ct)
@@ -704,7 +705,7 @@ func c05MergeFold(c *Ctx, ct collapsingType) {
 		return
 	}
 	paths, _ := exec(c, adj, nil, 2)
-	nWide := 0
+	nWide, nFold := 0, 0
 	badW := ""
 	for _, p := range paths {
 		tooWide, have := pathCond(p, func(t *Term) bool {
@@ -722,6 +723,45 @@ func c05MergeFold(c *Ctx, ct collapsingType) {
 					minV = e.Val
 				case dr.maxIndex:
 					maxV = e.Val
+				}
+			}
+		}
+		// the folded weight lands in the slot of the new edge index: slot + offset(at that time) = the edge stored on this path
+		{
+			offNow := linearOf(mk("field", dr.offset, nil, mk("field", ct.innerFld, nil, mk("param", "0", nil))))
+			edge := minV
+			if !lowest {
+				edge = maxV
+			}
+			// a replacement of the array by make(len(old array)) keeps its length: len(new) may be read as len(old)
+			sameLen := true
+			for _, e := range p.Effects {
+				if e.Kind == "store" && e.Addr.unver().Op == "field" && e.Addr.unver().Sym == dr.bins {
+					v := e.Val
+					if !(v.Op == "make" && len(v.Args) > 0 && v.Args[0].Op == "builtin" && v.Args[0].Sym == "len" && v.Args[0].Args[0].unver().Key() == e.Addr.unver().Key()) {
+						sameLen = false
+					}
+				}
+			}
+			for _, e := range p.Effects {
+				switch {
+				case e.Kind == "store" && e.Addr.unver().Op == "field" && e.Addr.unver().Sym == dr.offset && isRecvField(e.Addr.unver().Args[0], ct.innerFld):
+					offNow = linearOf(e.Val)
+				case e.Kind == "call" && isMethodCall(e.Call, "shiftCounts") && len(e.Call.Args) == 2:
+					offNow = linCombine(offNow, linearOf(e.Call.Args[1]), -1)
+				case e.Kind == "store" && e.Addr.Op == "index" && e.Addr.Args[0].unver().Op == "field" && e.Addr.Args[0].unver().Sym == dr.bins && !e.Val.isConst("0"):
+					nFold++
+					if edge == nil {
+						badW = "weight folded into a slot on a path that does not set the edge index"
+						continue
+					}
+					slot := linCombine(linearOf(e.Addr.Args[1]), offNow, 1)
+					if sameLen {
+						slot = lenUnver(slot)
+					}
+					if !linCombineKey(slot, linearOf(edge)) {
+						badW = fmt.Sprintf("collapsed weight is stored at index %s, not at the new edge index %s", slot.Key(), linearOf(edge).Key())
+					}
 				}
 			}
 		}
@@ -758,7 +798,7 @@ func c05MergeFold(c *Ctx, ct collapsingType) {
 	if !lowest {
 		exp = "after a too-wide adjust: minIndex = newMin and maxIndex = newMin + len(bins) − 1 (the window spans exactly the array)"
 	}
-	c.R.check(badW == "" && nWide > 0, rule, tname+".adjust/window-equals-array", shortFn(adj), c.fpos(adj), exp, firstNonEmpty(badW, fmt.Sprintf("%d too-wide path(s)", nWide)))
+	c.R.check(badW == "" && nWide > 0 && nFold >= 2, rule, tname+".adjust/window-equals-array", shortFn(adj), c.fpos(adj), exp+"; collapsed weight is stored in the slot of the new edge index", firstNonEmpty(badW, fmt.Sprintf("%d too-wide path(s), %d fold store(s)", nWide, nFold)))
 }
 
 // c05EmptyEdge (C05-D7): adjust and shiftCounts index bins[i − offset] for i in [minIndex, maxIndex];
@@ -848,4 +888,25 @@ func c05EmptyEdge(c *Ctx) {
 		}
 	}
 	c.R.floor(rule, "empty-edge paths of extendRange", n, 3)
+}
+
+// lenUnver rewrites the atoms len(ver:k(x)) of a linear form to len(x) (the caller has established that
+// every replacement of x on the path preserved its length).
+func lenUnver(l *Linear) *Linear {
+	out := &Linear{Coef: map[string]int{}, Atoms: map[string]*Term{}, Exact: l.Exact, Const: l.Const}
+	for k, co := range l.Coef {
+		at := l.Atoms[k]
+		if at.Op == "builtin" && at.Sym == "len" && len(at.Args) == 1 && at.Args[0].Op == "ver" {
+			at = mk("builtin", "len", nil, at.Args[0].unver())
+		}
+		out.Coef[at.Key()] += co
+		out.Atoms[at.Key()] = at
+	}
+	for k, v := range out.Coef {
+		if v == 0 {
+			delete(out.Coef, k)
+			delete(out.Atoms, k)
+		}
+	}
+	return out
 }
